@@ -175,13 +175,33 @@ Fixpoint prefixb (p q : cpath) : bool :=
   | _, [] => false
   | x :: p', y :: q' => if list_eq_dec N.eq_dec x y then prefixb p' q' else false
   end.
-(** dealloc_attr(the attribute with path p found through level i): it and everything below leave the tree and the tables *)
-Definition remove_below (s : cstate) (i : nat) (p : cpath) : cstate :=
+(** dealloc_attr(the attribute with path p found through level i): it and everything
+    below leave the tree and the tables; [strict]: only what is below it (dealloc_vmcoreinfo) *)
+Definition remove_below (s : cstate) (i : nat) (p : cpath) (strict : bool) : cstate :=
   match first_owner s (chain s i) p with
   | Some k => {| dicts := dicts s;
-                 attrs := filter (fun a => negb (Nat.eqb (a_tree a) k && prefixb p (a_path a))) (attrs s) |}
+                 attrs := filter (fun a => negb (Nat.eqb (a_tree a) k && prefixb p (a_path a) &&
+                                                 (negb strict || Nat.ltb (length p) (length (a_path a)))))
+                                 (attrs s) |}
   | None => s
   end.
+
+(** the paths that clone_xlat_attrs copies into the new dictionary: the given single
+    attributes (root, addrxlat, addrxlat.ostype) and the whole subtrees of the given
+    directories (addrxlat.default, addrxlat.force), as seen through level i *)
+Definition clone_priv (s : cstate) (i : nat) (singles roots : list cpath) : list cpath :=
+  singles ++ filter (fun p => existsb (fun r => prefixb r p) roots)
+                    (nodup cpath_eq_dec (concat (map (table s) (chain s i)))).
+
+(** decidable well-formedness, evaluated by the check on every state it replays *)
+Definition invb (s : cstate) : bool :=
+  forallb (fun a =>
+    Nat.eqb (a_table a) (a_tree a) &&
+    match dict_at s (a_table a) with Some d => d_alive d | None => false end &&
+    match rev (a_path a) with
+    | [] => true
+    | _ :: rq => if in_dec cpath_eq_dec (rev rq) (table s (a_table a)) then true else false
+    end) (attrs s).
 
 (** the observable side: live dictionaries, chain of a level, sorted-insensitive table *)
 Definition alive_dicts (s : cstate) : list nat :=
